@@ -1173,6 +1173,8 @@ val read_all : body -> n list -> bytes -> (bytes * outcome) * body
 
 val bufread_all : body -> n list -> bytes -> (bytes * outcome) * body
 
+val drain_ok : nat -> body -> bool
+
 val drain : nat -> body -> body
 
 val hexdig : byte -> bool
@@ -1257,10 +1259,12 @@ val body_fuel : body -> nat
 
 val after_drop : body -> bytes list
 
+val located : bool -> body -> bool
+
 val reader_payload : n -> bytes
 
 val run_handler :
-  app0 -> request -> body -> (response_ev list * bool) * bytes list
+  app0 -> request -> body -> ((response_ev list * bool) * bytes list) * bool
 
 type one = { o_resps : response_ev list; o_keep : bool; o_ok : bool;
              o_rest : bytes list; o_hooked : bool; o_eof : bool }
@@ -1317,7 +1321,8 @@ type ending =
 | EWaiting
 | EUnspec
 
-val body_unspecified : request -> (bytes * bytes) list -> bytes -> bool
+val body_unspecified_for :
+  app0 -> request -> (bytes * bytes) list -> bytes -> bool
 
 val spec_conn_f :
   nat -> app0 -> nat -> bytes -> response_ev list -> response_ev list * ending
